@@ -151,11 +151,14 @@ def check_compress_table(ctx, inst_idem, inst_refuse):
             st = strip_sites(detry(t))
             if m_call(st, name='from_residual') is not None:
                 continue
+            val = st[3][0] if (st[0] == 'agg' and st[2] == 'Ok' and st[3]) else st
             if st[0] == 'agg' and st[2] == 'Err':
                 outs.add('Err')
-            elif st[0] == 'agg' and st[2] == 'Ok' and st[3][0] == P1:
+            elif st[0] == 'agg' and st[2] == 'Ok' and val == P1:
                 outs.add('self')
-            elif st[0] == 'agg' and st[2] == 'Ok' and contains(st, lambda x: x[0] == 'call' and call_name(x) == 'from_uncompressed_data'):
+            elif contains(val, lambda x: x[0] == 'call' and call_name(x) == 'from_uncompressed_data') and (
+                    st[0] == 'agg' and st[2] == 'Ok' or (val[0] == 'call' and call_name(val) in ('new_with_compressed', 'try_into', 'try_from'))):
+                # Ok(compressed(self)), or the Result of the checked constructor handed on as it is
                 outs.add('compressed')
             else:
                 outs.add('other:' + fmt(st)[:80])
